@@ -58,6 +58,8 @@ WITNESSES = {
     'lang:assert-percent': prog([fn(0, [], 'int', seq(('let', False, 1, 'int', N(7)), ('assert', ('bin', 'eq', ('bin', 'mod', V(1), N(2)), N(1))), P(V(1)), ('ret', N(0))))]),
     # '??!' inside a string literal is a C trigraph
     'lang:string-trigraph': prog([fn(0, [], 'int', seq(P(('str', b'a??!b')), ('ret', N(0))))]),
+    # a string literal longer than the transpiler's 2048-byte formatting buffer
+    'lang:native-long-string-literal': prog([fn(0, [], 'int', seq(P(('str', bytes((97 + i % 26) for i in range(2100)))), P(('str', bytes((65 + i % 26) for i in range(4200)))), ('ret', N(0))))]),
     # a void function whose code ends with the RET of a conditional return: the last BYTE is RET, but the end is reachable
     'lang:fall-off-function-end': prog([fn(1, [(2, 'bool')], 'void', ('if', V(2), ('ret', None), ('skip',))),
                                         fn(0, [], 'int', seq(P(N(1)), ('expr', ('call', 1, [('bool', False)])), P(N(2)), ('ret', N(7))))]),
